@@ -311,6 +311,10 @@ func (s *Sim) BuildMsg(a *Action) sdk.Msg {
 		return &stakingtypes.MsgBeginRedelegate{DelegatorAddress: s.bech(a.Creator), ValidatorSrcAddress: s.valStr(a.Target), ValidatorDstAddress: s.valStr(a.Target2), Amount: sdk.NewInt64Coin(s.W.Cfg.Denom, a.Amount)}
 	case "bind_sid":
 		return s.buildBinding(a)
+	case "did_bind":
+		return s.buildDidBind(a)
+	case "did_update":
+		return s.buildDidUpdate(a)
 	}
 	return nil
 }
